@@ -14,11 +14,18 @@
 #define AStarPath AStarPath_C05TU
 #define AStarPathPrivate AStarPathPrivate_C05TU
 #define bends bends_C05TU
+#define verifAStarLast verifAStarLast_C05TU      // (optional hook, see harness/c05_astar_hook.patch)
 #include "libavoid/makepath.cpp"
+#undef verifAStarLast
 #undef bends
 #undef AStarPath
 #undef AStarPathPrivate
 namespace Avoid { int bends(const Point& curr, unsigned int currDir, const Point& dest, unsigned int destDir); }
+// Optional hook harness/c05_astar_hook.patch (guarded by ADAPTAGRAMS_VERIF): {connector id, g of the popped
+// target node, exploredCount, PENDING.size(), timestamp} of the last successful search of the LINKED library.
+// Weak: without the hook the symbol is absent and nothing is printed.
+namespace Avoid { extern double verifAStarLast[5] __attribute__((weak)); }
+static void printAStarHook(Avoid::ConnRef *conn);
 
 #include "common.h"
 #include "libavoid/libavoid.h"
@@ -29,6 +36,13 @@ namespace Avoid { int bends(const Point& curr, unsigned int currDir, const Point
 using namespace Avoid;
 
 static std::string H(double d) { return vh::hx(d); }
+
+static void printAStarHook(Avoid::ConnRef *conn) {
+    double *h = Avoid::verifAStarLast;
+    if (h == nullptr) return;
+    if (h[0] != (double) conn->id()) return;         // the last search was another connector's
+    printf("ahook %s %s %s %s\n", H(h[1]).c_str(), H(h[2]).c_str(), H(h[3]).c_str(), H(h[4]).c_str());
+}
 
 // ---------------------------------------------------------------------------- (a) kernels
 static const unsigned DIRS[4] = {1, 2, 4, 8};   // N E S W
@@ -393,6 +407,7 @@ static void runScene(long k, const char *tag, const Scene &s) {
     router->processTransaction();
     printPoly("route", conn->route());
     printPoly("display", conn->displayRoute());
+    printAStarHook(conn);
     fflush(stdout);
     dumpGraphRaw(router, conn);
     delete router;
@@ -741,6 +756,7 @@ static void runSceneVG(long k, const char *strictTag, const char *lossyTag, cons
     router->processTransaction();
     printPoly("route", conn->route());
     printPoly("display", conn->displayRoute());
+    printAStarHook(conn);
     fflush(stdout);
     VGOut o = analyseGraph(router, conn, s.pen);
     fputs(o.text.c_str(), stdout);
@@ -748,6 +764,8 @@ static void runSceneVG(long k, const char *strictTag, const char *lossyTag, cons
     delete router;
     vh::endCase();
 }
+
+#include "c05_orthvis.h"   // builder H: scene classes ovis-* (graph tie only)
 
 int main(int argc, char **argv) {
     vh::Args a = vh::parseArgs(argc, argv);
@@ -814,5 +832,6 @@ int main(int argc, char **argv) {
     // kernels of the A* search itself (appended last: earlier case indices stay stable)
     long nak = thorough ? 6 : 2;
     for (long c = 0; c < nak; ++c, ++k) if (a.want(k)) kernelAStar(k, vh::caseRng(a.seed, k), 400);
+    k = runOrthVisCases(a, k, thorough);      // ovis-* classes (appended last: earlier case indices stay stable)
     return 0;
 }
